@@ -1,6 +1,7 @@
 ------------------------------ MODULE MC_Framing ------------------------------
 EXTENDS Framing
 AllTokens == {"H:T1", "H:T2", "H:U", "{", "}", "ib", "ih", "b1", "b2", "blank", "nohdr"}
+BlankTokens == {"H:T1", "H:T2", "{", "}", "b1", "blank"}
 BraceTokens == {"H:T1", "H:T2", "{", "}", "b1"}
 CoreTokens == {"H:T1", "H:U", "{", "}", "ib", "b1", "blank"}
 ==============================================================================
